@@ -13,7 +13,7 @@ MAP = {
     "C03_m1": [("C03", "wavleaf.fmt")], "C03_m2": [("C05", "wrap.read_float.ch2"), ("C03", "wrap.read_float.ch2")],
     "C04_m1": [("C04", "blk.ima"), ("C07", "blk.ima")], "C04_m2": [("C04", "aiff.pcm16.ch1024")],
     "C05_m1": [("C05", "wrap.read_raw.ch2")], "C05_m2": [("C05", "sg.pcm_32be.double.RD")],
-    "C06_m1": [("C06", "blk.")], "C06_m2": [("C06", "blk.ima_aiff.ch2")],
+    "C06_m1": [("C06", "blk.")], "C06_m2": [("C06", "seek.ima_aiff.ch2")],
     "C07_m1": [("C18", "peak.float32.int.ch2"), ("C07", "peak.")], "C07_m2": [("C07", None)],
     "C08_m1": [("C08", None)], "C08_m2": [("C08", None)],
     "C09_m1": [("C09", "wrap.seek.ch1"), ("C06", "wrap.seek.ch1")], "C09_m2": [("C09", "metarefuse"), ("C17", "metarefuse")],
